@@ -83,8 +83,19 @@ fn file_name(f: &FileRec, all: &[FileRec]) -> String {
     format!("{}{:04}-{:02}.{}", if dup { "monthly_xml_" } else { "" }, f.name.0, f.name.1, f.ext)
 }
 
-/// all (code, rate) pairs of a bundled month, read straight from the XML text
+thread_local! {
+    static MONTHS_CACHE: std::cell::RefCell<HashMap<(i32, u32), Option<Vec<(String, Decimal)>>>> = std::cell::RefCell::new(HashMap::new());
+}
+
+/// all (code, rate) pairs of a bundled month, read straight from the XML text (memoised)
 fn bundled_month(dir: &Path, y: i32, m: u32) -> Option<Vec<(String, Decimal)>> {
+    if let Some(v) = MONTHS_CACHE.with(|c| c.borrow().get(&(y, m)).cloned()) { return v; }
+    let v = bundled_month_uncached(dir, y, m);
+    MONTHS_CACHE.with(|c| c.borrow_mut().insert((y, m), v.clone()));
+    v
+}
+
+fn bundled_month_uncached(dir: &Path, y: i32, m: u32) -> Option<Vec<(String, Decimal)>> {
     let text = std::fs::read_to_string(dir.join(format!("{y:04}-{m:02}.xml"))).ok()?;
     let mut out = Vec::new();
     let mut rest = text.as_str();
@@ -256,7 +267,8 @@ fn main() {
         let txs = ledger(rec, None);
         let input_text = format!("{}# folder: {}", to_dsl(&txs), serde_json::to_string(&rec.files).unwrap_or_default());
         let mut push = |kind: &str, detail: String| {
-            findings.push(Finding { prop: "C08".into(), kind: kind.into(), case: case_no, detail, input: input_text.clone(), data: json!({"expected": rec.result}) });
+            let prop = if kind == "fx_cost_not_conserved" { "C03" } else { "C08" };
+            findings.push(Finding { prop: prop.into(), kind: kind.into(), case: case_no, detail, input: input_text.clone(), data: json!({"expected": rec.result}) });
         };
         cnt.inc("cases");
         let kind = rec.result[0].as_str().unwrap_or("");
@@ -289,6 +301,13 @@ fn main() {
                 }
                 if !okc { eprintln!("case {case_no}: cannot determine expected rates"); std::process::exit(2); }
                 if rec.fields.iter().filter(|f| f.cur != "GBP").count() >= 2 { cnt.inc("multi_foreign_field"); }
+                // C03 in foreign currency: legs + closing cost = quantity x price + fees, each converted at its own rate
+                let spent = Decimal::from(10) * conv[0] + conv[1];
+                let legs: Decimal = rep.tax_years.iter().flat_map(|y| y.disposals.iter()).flat_map(|d| d.matches.iter()).map(|m| m.allowable_cost).sum();
+                let held: Decimal = rep.holdings.iter().map(|h| h.total_cost).sum();
+                if (legs + held - spent).abs() > Decimal::new(1, 12) {
+                    push("fx_cost_not_conserved", format!("legs + closing cost = {}, GBP expenditure (price and fees each at the rate of its own currency and month) = {spent}", legs + held));
+                }
                 let twin = ledger(rec, Some(&conv));
                 let c3 = cfg.clone();
                 let t3 = twin.clone();
@@ -326,7 +345,11 @@ fn main() {
                 }
             }
             let step = (cases.len() / cli_sample.max(1)).max(1);
-            for case_no in cases.iter().step_by(step).take(cli_sample) {
+            let picked: Vec<usize> = cases.iter().step_by(step).take(cli_sample).copied().collect();
+            // process starts dominate (each loads the bundled rates): run them on all cores
+            let outs = cgtv::par::par_map(&picked, cgtv::par::threads(), |_, case_no| {
+                let mut fs: Vec<Finding> = Vec::new();
+                let mut runs = 1u64;
                 let rec = &recs[*case_no];
                 let kind = rec.result[0].as_str().unwrap_or("");
                 let txs = ledger(rec, None);
@@ -334,9 +357,8 @@ fn main() {
                 let file = dir.join(format!("l{case_no}.cgt"));
                 let _ = std::fs::write(&file, &text);
                 let (rc, so, se) = run_cli(&cli, &dir, &["report", "--format", "json", "--fx-folder", "rates", file.to_str().unwrap_or("")]);
-                cnt.inc("cli_runs");
                 let mut push = |kind: &str, detail: String| {
-                    findings.push(Finding { prop: "C08".into(), kind: kind.into(), case: *case_no, detail, input: format!("{text}# folder: {}", serde_json::to_string(&rec.files).unwrap_or_default()), data: json!({"stderr": se.chars().take(400).collect::<String>()}) });
+                    fs.push(Finding { prop: "C08".into(), kind: kind.into(), case: *case_no, detail, input: format!("{text}# folder: {}", serde_json::to_string(&rec.files).unwrap_or_default()), data: json!({"stderr": se.chars().take(400).collect::<String>()}) });
                 };
                 match kind {
                     "rejected" => { if rc == 0 { push("cli_bad_file_accepted", "cgt-tool accepted a rates folder with an inconsistent file".into()); } else if !so.trim().is_empty() { push("cli_partial_output", "output on stdout alongside a failure".into()); } }
@@ -347,21 +369,25 @@ fn main() {
                         else if !(se.contains(cur) && se.contains(&ym)) { push("cli_missing_rate_message", format!("error does not name {cur} and {ym}: {se}")); }
                     }
                     _ => {
-                        if rc != 0 { push("cli_convertible_refused", format!("cgt-tool failed: {se}")); continue; }
-                        let mut conv = Vec::new();
-                        for i in 0..rec.fields.len() { conv.push(amount_of(&rec.fields[i].what) / rate_of(rec, i).unwrap_or(Decimal::ONE)); }
-                        let twin = dir.join(format!("t{case_no}.cgt"));
-                        let _ = std::fs::write(&twin, to_dsl(&ledger(rec, Some(&conv))));
-                        let (rc2, so2, _) = run_cli(&cli, &dir, &["report", "--format", "json", twin.to_str().unwrap_or("")]);
-                        cnt.inc("cli_runs");
-                        let a: serde_json::Value = cgtv::canon_numbers(&serde_json::from_str(&so).unwrap_or(json!(null)));
-                        let b: serde_json::Value = cgtv::canon_numbers(&serde_json::from_str(&so2).unwrap_or(json!(null)));
-                        if rc2 != 0 || a["tax_years"] != b["tax_years"] || a["holdings"] != b["holdings"] || a["tax_years"].is_null() {
-                            push("cli_twin_differs", format!("cgt-tool report of the foreign ledger with --fx-folder differs from the report of its GBP twin (rc {rc2}): {} VS {}", a["tax_years"], b["tax_years"]));
+                        if rc != 0 { push("cli_convertible_refused", format!("cgt-tool failed: {se}")); }
+                        else {
+                            let mut conv = Vec::new();
+                            for i in 0..rec.fields.len() { conv.push(amount_of(&rec.fields[i].what) / rate_of(rec, i).unwrap_or(Decimal::ONE)); }
+                            let twin = dir.join(format!("t{case_no}.cgt"));
+                            let _ = std::fs::write(&twin, to_dsl(&ledger(rec, Some(&conv))));
+                            let (rc2, so2, _) = run_cli(&cli, &dir, &["report", "--format", "json", twin.to_str().unwrap_or("")]);
+                            runs += 1;
+                            let a: serde_json::Value = cgtv::canon_numbers(&serde_json::from_str(&so).unwrap_or(json!(null)));
+                            let b: serde_json::Value = cgtv::canon_numbers(&serde_json::from_str(&so2).unwrap_or(json!(null)));
+                            if rc2 != 0 || a["tax_years"] != b["tax_years"] || a["holdings"] != b["holdings"] || a["tax_years"].is_null() {
+                                push("cli_twin_differs", format!("cgt-tool report of the foreign ledger with --fx-folder differs from the report of its GBP twin (rc {rc2}): {} VS {}", a["tax_years"], b["tax_years"]));
+                            }
                         }
                     }
                 }
-            }
+                (fs, runs)
+            });
+            for (fs, runs) in outs { findings.extend(fs); cnt.add("cli_runs", runs); }
         }
         let _ = std::fs::remove_dir_all(&root);
     }
